@@ -356,7 +356,7 @@ def report(prop, tier, seed, level, tot, wall, rule, assumptions, extra_cov=None
         if f['sig'] in seen_sig:
             continue
         seen_sig.add(f['sig'])
-        if len(seen_sig) > 12:
+        if len(seen_sig) > int(os.environ.get('VERIF_MAXSIG', '12')):
             break
         path = write_replay(prop, f, seed, tier)
         print('VIOLATION property=%s replay=%s' % (prop, path))
